@@ -71,7 +71,7 @@ Print Assumptions C03_regenerated_rangeScan.
    by the regenerated code); the budgets are the ones Model/Api.v gives (theight for maximum, walk_fuel for the scan,
    key_fuel for Search). kres_out reads what the consumer was called with the way Api.seq_out does. Hypotheses: the
    invariants every reachable state satisfies (TranslateApiFacts.state_hyps_reachable, alpha_keys_reachable). *)
-From GoArt Require Import Model.Api Model.PoolTree Proofs.PoolTreeFacts Model.GoTree Gen.ApiGen Proofs.TranslateApiFacts.
+From GoArt Require Import Model.Api Model.PoolTree Proofs.PoolTreeFacts Model.GoTree Gen.ApiGen Proofs.TranslateApiBase Proofs.TranslateApiRange.
 Theorem C03_regenerated_alpha_Range : forall tr st a b ans fm fr, sinv st -> root_wf (sabs st) -> keys_ok nonempty_key st ->
   (forall t, xroot st = Some t -> fm = theight (tabs t) /\ fr = walk_fuel (tabs t)) ->
   kres_out AB (g_alpha_Range tr alpha_rs fm fr (xroot st) a b ans) = do_range KAlpha (sabs st) (AB a) (AB b) ans.
